@@ -120,7 +120,7 @@ class SymRange:
 
 
 def _range(*a):
-    vals = [core.concrete(x) if isinstance(x, core.SV) else x for x in a]
+    vals = [core.concretize(x) if isinstance(x, core.SV) else x for x in a]
     if all(isinstance(v, int) for v in vals):
         return range(*vals)
     if len(a) == 1:
